@@ -180,10 +180,15 @@ def bbox(ctx, rng, xr):
             if np.min(np.abs(nodes - v)) > 1e-6 * max(abs(v), 1):
                 return v
         return float(lo - 1e-3)
+    layout = str(rng.choice(["bands", "free"]))
+    if layout == "free":
+        nb = int(rng.integers(2, 5))      # boxes anywhere: frequency ranges may overlap while directions do not
     fe = sorted(edge(f[0] * 0.9, f[-1] * 1.1, f) for _ in range(nb + 1))
     boxes, full = [], []
     for b in range(nb):
         fmin, fmax = fe[b], fe[b + 1]
+        if layout == "free":
+            fmin, fmax = sorted([edge(f[0] * 0.9, f[-1] * 1.1, f), edge(f[0] * 0.9, f[-1] * 1.1, f)])
         d0, d1 = sorted([edge(-5, 365, th), edge(-5, 365, th)])
         box = {"fmin": fmin, "fmax": fmax, "dmin": d0, "dmax": d1}
         fl = dict(box)
@@ -210,7 +215,7 @@ def bbox(ctx, rng, xr):
     area_overlap = any(not (full[i]["fmax"] <= full[j]["fmin"] or full[j]["fmax"] <= full[i]["fmin"] or full[i]["dmax"] <= full[j]["dmin"] or full[j]["dmax"] <= full[i]["dmin"])
                        for i in range(len(full)) for j in range(i + 1, len(full)))
     omitted = sorted(set(k for b in boxes for k in ("fmin", "fmax", "dmin", "dmax") if k not in b))
-    key = "bbox|%s|%s|lead=%d|n=%d|omitted=%s|share=%s" % (stored, dt, len(lnames), len(boxes), "+".join(omitted) or "none", share)
+    key = "bbox|%s|%s|%s|lead=%d|n=%d|omitted=%s|share=%s" % (layout, stored, dt, len(lnames), len(boxes), "+".join(omitted) or "none", share)
     try:
         r = x.spec.partition.bbox([dict(b) for b in boxes])
     except ValueError as e:
